@@ -8,9 +8,12 @@ props="${PROPS:-C01 C02 C04 C05 C06 C07 C08 C09 C11 C12 C13 C15 C16 C17 C18 C19 
 run() { # id, what, own
   id=$1; what=$2; own=$3
   pp="$props"; [ -z "$PROPS" ] && pp="$own"
-  res=$(MT_LINES=0 tools/try_mutant.sh "$what" $pp 2>&1 | grep "^== " )
+  all=$(MT_LINES=0 tools/try_mutant.sh "$what" $pp 2>&1)
+  res=$(echo "$all" | grep "^== " )
   fired=$(echo "$res" | grep "exit=1" | sed 's/== \(C[0-9]*\) exit=1/\1/' | tr '\n' ' ')
   ownv=miss; echo " $fired" | grep -q " $own " && ownv=CAUGHT
+  # a fix that later commits rewrote can no longer be reverted mechanically
+  echo "$all" | grep -q "REVERT-FAILED\|APPLY-FAILED" && ownv="not-applicable(superseded)"
   echo -e "$id\t$own\t$ownv\t$fired" | tee -a $out.tmp
 }
 for d in seeded/C*/; do id=$(basename $d); [ -n "$ONLY" ] && [[ ! "$id" =~ $ONLY ]] && continue; run $id $d/patch.diff ${id:0:3}; done
